@@ -27,6 +27,19 @@
 //!                (Alive -> refute), with the `failed/recorded inc <= announced` oracle and a final
 //!                anti-entropy round after which all views must be identical.
 //!   mgr.*        `GossipMembershipManager::handle_gossip` with Sync / Suspect / Alive messages.
+//!   cluster[.directed]  2-4 real `GossipMembershipManager`s whose MemoryTransports are connected to
+//!                capturing channels (struct `Clu`; the tokio runtime is driven after every call so the
+//!                spawned sends run): add_peer, gossip_round (suspicion_timeout_ms 0 = every pending
+//!                suspicion expires, or never), suspect_node, ping acks, delivery of any captured
+//!                Sync / Suspect / Alive to any node in any order and repetition, full two-way exchanges.
+//!                Every primitive step goes to the model (`ev_*`: the HashMap iteration order of the view and
+//!                the order in which suspicions were failed are read off the real manager and passed on) and
+//!                the message handed to the transport, the rejected counter, the clock and the view are
+//!                compared.  Oracles on the real outputs alone (site tensor_chain.gossip.cluster): keys / clock
+//!                never backwards, clock >= held timestamps, recorded / failed incarnation <= the largest
+//!                incarnation in an Alive the member itself sent, announced incarnations strictly increasing,
+//!                published states held by the sender, truncation drops only the oldest, every accepted Sync
+//!                state dominated by the receiver's view afterwards, exchanged managers agree on third members.
 use std::sync::Arc;
 
 use nverif::*;
@@ -1440,7 +1453,7 @@ fn main() {
 
     rep.note(&format!("corr_gossip wall {:.1}s", t_start.elapsed().as_secs_f64()));
     rep.note("u64 lamport/incarnation counters modelled as Nat (no overflow within 2^64 ticks)");
-    rep.note("manager stream: suspicion timers (Instant), flap tracking, signing, ping-req/ack and transport sends are not modelled; only the CRDT effects of Sync/Suspect/Alive/add_peer are compared");
+    rep.note("manager streams: suspicion timers as time (the cluster stream uses suspicion_timeout_ms 0 or never), target selection, flap tracking, signing, ping-req forwarding and transport failures are not modelled; compared: the CRDT effects of Sync/Suspect/Alive/PingAck/add_peer/gossip_round/suspect_node and the Sync/Suspect/Alive handed to the transport");
     rep.write(&args.out);
 }
 
@@ -2155,6 +2168,19 @@ impl<'a> Clu<'a> {
                                 "tensor_chain.gossip.cluster/sync_state_not_held",
                                 format!("node {r} published {} for member {} while holding {} {at}", u.txt(), u.m, txt(before.0[u.m])),
                             );
+                        }
+                    }
+                    // truncation drops only the oldest (statesForGossip_keeps_newest / _full_view)
+                    let held = (0..K).filter(|&m| before.0[m].is_some()).count();
+                    let oldest_sent = b.iter().map(|u| u.ts).min();
+                    for m in 0..K {
+                        if let Some(e) = before.0[m] {
+                            if !b.iter().any(|u| u.m == m) && (b.len() < self.cfg.k.min(held) || oldest_sent.is_some_and(|t| e.1 > t)) {
+                                self.flag(
+                                    "tensor_chain.gossip.cluster/sync_omits_newer_state",
+                                    format!("node {r} left {} of member {m} out of a Sync of {} states (max {}) whose oldest timestamp is {:?} {at}", txt(Some(e)), b.len(), self.cfg.k, oldest_sent),
+                                );
+                            }
                         }
                     }
                     self.last_sync[r] = Some(g.clone());
